@@ -579,6 +579,85 @@ func c01Eval(c c01Case) (ok bool, sig, detail string) {
 		return c01Roundtrip(seqs, fmt.Sprintf("stream %v", c.Values))
 	case "registry":
 		return c01Registry(c)
+	case "interleaved":
+		return c01Interleaved(c)
+	}
+	return true, "", ""
+}
+
+// c01Interleaved: the way every CLI command works - scan one record, edit it, write it, scan the next -
+// must give the same stream as scanning everything first and editing afterwards (records are framed independently).
+func c01Interleaved(c c01Case) (ok bool, sig, detail string) {
+	var input []byte
+	for _, name := range c.Values {
+		w, err, pan := c01Write(c01Seed(name))
+		if err != nil || pan != "" {
+			return true, "", "seed not writable"
+		}
+		input = append(input, w...)
+	}
+	apply := func(x gts.Sequence) (y gts.Sequence, pan string) {
+		y = x
+		if p, msg := engine.Safely(func() {
+			for _, op := range c.Ops {
+				y = c01ApplyOp(y, op)
+			}
+		}); p {
+			pan = msg
+		}
+		return
+	}
+	// batch: read everything, then edit
+	all, errText, pan := c01Read(input)
+	if pan != "" || errText != "" {
+		return true, "", "seed stream unreadable"
+	}
+	var batch []gts.Sequence
+	for _, x := range all {
+		y, pn := apply(x)
+		if pn != "" {
+			return true, "", "" // panicking edits are another property's business
+		}
+		batch = append(batch, y)
+	}
+	wantBytes, werr, wpan := c01Write(batch)
+	if werr != nil || wpan != "" {
+		return true, "", ""
+	}
+	// interleaved: scan, edit, write, scan ...
+	var got bytes.Buffer
+	var ierr, ipan string
+	seqioMu.Lock()
+	if p, msg := engine.Safely(func() {
+		sc := seqio.NewAutoScanner(bytes.NewReader(append([]byte(nil), input...)))
+		w := seqio.NewWriter(&got, seqio.GenBankFile)
+		for sc.Scan() {
+			y, pn := apply(sc.Value())
+			if pn != "" {
+				ierr = "edit panics only when interleaved: " + pn
+				return
+			}
+			if _, e := w.WriteSeq(y); e != nil {
+				ierr = e.Error()
+				return
+			}
+		}
+		if e := sc.Err(); e != nil {
+			ierr = e.Error()
+		}
+	}); p {
+		ipan = msg
+	}
+	seqioMu.Unlock()
+	what := fmt.Sprintf("stream %v with %v applied to each record as it is scanned", c.Values, c.Ops)
+	if ipan != "" {
+		return false, "interleaved-panic", what + ": panic: " + ipan
+	}
+	if ierr != "" {
+		return false, "interleaved-stream-breaks", what + ": " + strings.ReplaceAll(ierr, "\n", " ") + " (scanning everything first and editing afterwards works)"
+	}
+	if !bytes.Equal(got.Bytes(), wantBytes) {
+		return false, "interleaved-differs", what + ": output differs from editing after the whole stream was read: " + firstDiff(string(wantBytes), got.String())
 	}
 	return true, "", ""
 }
@@ -815,6 +894,15 @@ func init() {
 					eval(c01Case{Kind: "stream", Values: []string{a, b}}, 2001)
 					for _, c := range small {
 						eval(c01Case{Kind: "stream", Values: []string{a, b, c}}, 2002)
+					}
+				}
+			}
+			// scan/edit/write interleaved, as the CLI does, on multi-record streams
+			for _, st := range [][]string{{"gen-full", "gen-contig", "gen-full"}, {"NC_001422_part.gb", "base", "NC_001422_part.gb"}, {"base", "base", "gen-full"}} {
+				for _, op := range c01Ops {
+					eval(c01Case{Kind: "interleaved", Values: st, Ops: []string{op}}, 2500)
+					for _, op2 := range []string{"rotate", "insert-mid", "delete-mid", "reverse"} {
+						eval(c01Case{Kind: "interleaved", Values: st, Ops: []string{op, op2}}, 2600)
 					}
 				}
 			}
